@@ -400,7 +400,7 @@ func endToEnd(meta *common.Meta, tier string, rng interface{ Intn(int) int }, ou
 	enabledSet := map[string]bool{"sloppyLen": true, "emptyStringTest": true, "unlambda": true}
 	type flagset struct {
 		checkTests, checkGen, shorter bool
-		exitCode                     int
+		exitCode                      int
 	}
 	var flagsets []flagset
 	for _, ct := range []bool{true, false} {
